@@ -562,7 +562,9 @@ class TreeSim(taps.Sim):
             self.c10("zero_base_missed", "a strategy's value moved off a zero base but no error was raised: %s" % getattr(self, "_hz_detail", ""), {})
         mv = m.value(m.root)
         scale = m.gross()
-        tol = REL * scale
+        # (float residue left in cash by the largest amounts the run has handled stays when the book shrinks - a position quoted
+        # at zero, everything sold: the noise floor follows the run's peak notional, the relative tolerance today's book)
+        tol = REL * scale + 1e-12 * m.peak_ever
         J = self.judge
         ok = True
         # ---- every node
